@@ -127,19 +127,63 @@ class CompositionMonitor(hist.Monitor):
         kind = op["op"]
         carry = []
         sh = self.sh
-        for ev in out.events:
+        events = out.events
+        if out.exc is None and kind in ("add", "dispense", "evo_dispense", "remove", "aspirate", "evo_aspirate"):
+            # a direct call: the oracle pairs wells, volumes and compositions as the CALLER wrote them
+            # (not as they happen to arrive at Labware.add)
+            from ..attach import flat_f
+
+            L = sh.lw[op["lw"]]
+            desc = eng.descs[op["lw"]]
+            ws = flat_f(dec(op["wells"]))
+            vs = flat_f(dec(op["vol"]))
+            vs = vs * len(ws) if len(vs) == 1 else vs
+            comps = dec(op.get("comps")) if kind in ("add", "dispense", "evo_dispense") else None
+            for i, (w, v) in enumerate(zip(ws, vs)):
+                idx = real_index(desc, w)
+                if idx is None:
+                    continue
+                if kind in ("remove", "aspirate", "evo_aspirate"):
+                    L.remove(idx, v)
+                elif comps is None or comps[i] is None:
+                    L.add(idx, v, None)
+                else:
+                    L.add(idx, v, {k: fr(f) * fr(v) for k, f in comps[i].items()})
+            ctx.count("direct_call_judged_by_its_arguments")
+            events = []
+        for ev in events:
             if ev["kind"] not in ("add", "remove"):
                 continue
             L = sh.lw[ev["name"]]
             desc = eng.descs[ev["name"]]
             if ev["exc"] is not None:
-                # rejected elementary call: addressed wells become unknown, volumes resynchronised
-                for w in ev["wells"]:
-                    idx = real_index(desc, w)
-                    if idx is not None:
-                        L.wells[idx].unknown = True
-                        L.wells[idx].vol = fr(ev["post"][idx])
-                ctx.count("event_rejected")
+                # rejected elementary call: either nothing was applied, or the prefix before the offending
+                # element; in both cases the composition has to match the volumes that are really there
+                if np.array_equal(ev["post"], ev["pre"], equal_nan=True):
+                    ctx.count("event_rejected:nothing_applied")
+                    continue
+                kk = ev.get("k")
+                applied = False
+                if ev.get("status") == "limit" and kk is not None and ev["kind"] == "add":
+                    comps = ev.get("compositions")
+                    trial = []
+                    for i, (w, v) in enumerate(zip(ev["wells"][:kk], ev["volumes"][:kk])):
+                        trial.append((real_index(desc, w), v, None if comps is None else comps[i]))
+                    exp = {}
+                    for idx, v, c_ in trial:
+                        exp[idx] = exp.get(idx, fr(ev["pre"][idx])) + fr(v)
+                    if all(near(float(ev["post"][idx]), e, scale=abs(float(e))) for idx, e in exp.items()):
+                        for idx, v, c_ in trial:
+                            L.add(idx, v, None if c_ is None else {k: fr(f) * fr(v) for k, f in c_.items()})
+                        applied = True
+                        ctx.count("event_rejected:prefix_applied")
+                if not applied:
+                    for w in ev["wells"]:
+                        idx = real_index(desc, w)
+                        if idx is not None:
+                            L.wells[idx].unknown = True
+                            L.wells[idx].vol = fr(ev["post"][idx])
+                    ctx.count("event_rejected:resynchronised")
                 continue
             if ev["kind"] == "remove":
                 for w, v in zip(ev["wells"], ev["volumes"]):
@@ -294,6 +338,7 @@ def gen_case(rng, tier, index):
                            need_trough=rng.random() < 0.6, small=True)
     for d in wt:
         _rename(rng, d)
+    gen.sync_twins(wt)
     if rng.random() < 0.12:
         wl["auto_split"] = False
     n_ops = rng.choice([5, 10, 20, 40, 80 if tier == "thorough" else 40])
